@@ -344,6 +344,8 @@ func checkC12(p *Program, r *Report) {
 		}
 	}
 	checkRejectReasonsAs(p, r, "C12.accept")
+	checkCutAlignment(p, r, "C12.align")
+	checkCodecsAs(p, r, "C12")
 }
 
 func init() { checks["C12"] = checkC12 }
